@@ -12,9 +12,11 @@ ap = argparse.ArgumentParser()
 ap.add_argument("prop"); ap.add_argument("variant"); ap.add_argument("pkg")
 ap.add_argument("--checks"); ap.add_argument("--tier", default="quick"); ap.add_argument("--race", action="store_true")
 ap.add_argument("--needs", default="")
+ap.add_argument("--round", type=int, default=1)
+ap.add_argument("--demotags", default="")
 a = ap.parse_args()
 wt = "/tmp/mut/%s" % a.prop
-out = "/tmp/mut/%s.out" % a.prop
+out = "/tmp/mut/%s.out%s" % (a.prop, "" if a.round == 1 else str(a.round))
 diff = os.path.join(out, a.variant + ".diff")
 demo = os.path.join(out, a.variant + "_demo_test.go")
 env = dict(os.environ, GOFLAGS="-mod=mod", GOPROXY="off", GOSUMDB="off", GOTOOLCHAIN="local")
@@ -23,7 +25,7 @@ def sh(cmd, cwd=None, timeout=1800):
     return p.returncode, (p.stdout + p.stderr)
 def clean():
     sh("git checkout -- . && git clean -fdq", wt)
-meta = {"property": a.prop, "variant": a.variant, "demo_package_dir": a.pkg, "ran": []}
+meta = {"property": a.prop, "variant": a.variant, "round": a.round, "demo_package_dir": a.pkg, "ran": []}
 clean()
 rc, o = sh("git apply --check %s && git apply %s" % (diff, diff), wt)
 if rc: print("APPLY FAILED", o); sys.exit(2)
@@ -32,7 +34,7 @@ rc2, o2 = sh("go test -vet=off -count=1 ./... 2>&1 | grep -v 'no test files'", w
 suite_ok = rc1 == 0 and "FAIL" not in o2 and "ok" in o2
 meta["ran"].append({"cmd": "go build ./... && go build -tags verif ./... && go test -vet=off -count=1 ./...", "with_change": "pass" if suite_ok else "FAIL"})
 shutil.copy(demo, os.path.join(wt, a.pkg, "zz_demo_test.go"))
-race = "-race " if a.race else ""
+race = ("-race " if a.race else "") + ("-tags %s " % a.demotags if a.demotags else "")
 rc3, o3 = sh("go test %s-vet=off -count=1 -run Demo ./%s/" % (race, a.pkg), wt, 1200)
 demo_fails = rc3 != 0
 clean()
@@ -48,25 +50,23 @@ confirmed = suite_ok and demo_fails and demo_passes_clean
 meta["confirmed"] = confirmed
 results = {}
 if confirmed and a.checks:
-    rc, o = sh("git status --porcelain", "/repo")
-    if o.strip(): print("/repo not clean:", o); sys.exit(2)
-    rc, o = sh("git apply %s" % diff, "/repo")
-    if rc: print("apply to /repo failed", o); sys.exit(2)
+    # the change is applied in the scratch worktree only; the checks are pointed at it with VERIF_REPO
+    rc, o = sh("git apply %s" % diff, wt)
+    if rc: print("apply failed", o); sys.exit(2)
     try:
         for c in a.checks.split(","):
             t0 = time.time()
-            p = subprocess.run(["./check", c, "--tier", a.tier], cwd="/verif", capture_output=True, text=True, timeout=7200)
+            e2 = dict(os.environ, VERIF_REPO=wt)
+            p = subprocess.run(["./check", c, "--tier", a.tier], cwd="/verif", capture_output=True, text=True, timeout=7200, env=e2)
             line = [l for l in p.stdout.splitlines() if l.startswith("VIOLATION") or l.startswith("KNOWN")]
             why = [l.strip() for l in p.stderr.splitlines() if l.startswith("  ") or "DRIFT" in l or "INFRA" in l]
             results[c] = {"tier": a.tier, "rc": p.returncode, "lines": line, "why": why[:4], "wall_s": round(time.time() - t0)}
             print("check %s (%s): rc=%d %s %s" % (c, a.tier, p.returncode, line, why[:3]))
     finally:
-        sh("git checkout -- . && git clean -fdq -e '*.orig'", "/repo")
-    rc, o = sh("git status --porcelain", "/repo")
-    if o.strip(): print("WARNING /repo not clean after revert:", o)
+        clean()
 meta["checks"] = results
 meta["needs_to_manifest"] = a.needs
-d = "/verif/seeded/%s-%s" % (a.prop, a.variant)
+d = "/verif/seeded/%s-%s%s" % (a.prop, "" if a.round == 1 else "R%d" % a.round, a.variant)
 os.makedirs(d, exist_ok=True)
 # merge with earlier runs of other tiers
 mp = os.path.join(d, "meta.json")
